@@ -179,10 +179,10 @@ PROP = dict(
                "read_immediate_u8(..) and `unsafe { interpreter.instruction_pointer.offset(1) }` -> ip_offset1(..) (external_body "
                "wrappers whose body is exactly the replaced expression: Verus has no raw-pointer dereference). "
                "pop_extcall_target_address is extracted but TRUSTED (external_body: `.iter().any(..)`), with the contract 'pops at "
-               "most one word, may set instruction_result, no host'. Per-frame memory: SharedMemory::len/slice/slice_range/set_data "
-               "and interpreter::resize_memory are ASSUMED locally (units/prelude/static_mem.rs) with the clause text of "
-               "contracts/memory.vc resp. the clauses announced by builder c11-memory for contracts/meminstr.vc; to be switched to "
-               "the ledger when unit meminstr is baselined.",
+               "most one word, may set instruction_result, no host'. Per-frame memory (SharedMemory::len/slice/slice_range/"
+               "set_data, interpreter::resize_memory) is used through the contract ledger (contracts/memory.vc, meminstr.vc; "
+               "units memory / meminstr are re-run by this property's closure). The mutation self-test (mutations/C10) was run "
+               "with local copies of those five contracts (same clause text), before the ledger entries were baselined.",
     trusted=COMMON_TRUST + [
         "units/prelude/static_common.rs.in: external_trait_specification of revm_interpreter::Host (all 13 methods, no "
         "postconditions: host answers are arbitrary); the ONLY difference between units static / static_s is "
@@ -190,8 +190,6 @@ PROP = dict(
         "units/prelude/ruint.rs (ruint 1.12.3 contracts over uval), units/prelude/static_env.rs (frozen copy of "
         "prelude/env.rs: Env/CfgEnv declared transparent, Spec::enabled == SPEC_ID >= fork, spec_id_exec, core::cmp::min, "
         "Bytes deref/len)",
-        "units/prelude/static_mem.rs: LOCAL copies of the memory contracts (SharedMemory::len/slice/slice_range/set_data as in "
-        "contracts/memory.vc; interpreter::resize_memory as announced for contracts/meminstr.vc) -- not yet ledger-backed",
         "alloy / bytes / std operations without value postconditions: B256::from(U256), Address::from_word, Address::create2, "
         "keccak256, Bytes::new/copy_from_slice/clone/clear/deref_mut, [T]::to_vec, LogData::new (Some for <= 4 topics), "
         "Result::unwrap_or, core::cmp::max, Range::is_empty / clone (usize), StateLoad::deref == &data",
@@ -202,8 +200,9 @@ PROP = dict(
         "pop_extcall_target_address: extracted text, external_body (trusted) frame contract",
         "Gas::record_cost/record_refund/remaining/remaining_63_of_64_parts, Stack::len/pop*_unsafe/top_unsafe/push/push_b256, "
         "sload_cost/sstore_cost/sstore_refund/selfdestruct_cost/warm_cold_cost/log_cost/extcodecopy_cost/initcode_cost/"
-        "create2_cost/call_cost/cost_per_word, SpecId::is_enabled_in: through the contract ledger (proved in units gas, stack, "
-        "gascalc, re-run by this property's closure)",
+        "create2_cost/call_cost/cost_per_word, SpecId::is_enabled_in, SharedMemory::len/slice/slice_range/set_data, "
+        "interpreter::resize_memory: through the contract ledger (proved in units gas, stack, gascalc, memory, meminstr, re-run "
+        "by this property's closure)",
     ],
     assumptions=[
         "entry invariants of every instruction: gas_wf, stack_wf (<= 1024 words), mem_wf, mem_gas_inv (memory paid + gas left < "
